@@ -159,6 +159,37 @@ def run(ck):
     add(src="m := {" + ", ".join("k%d: %d" % (i, i) for i in range(40000)) + "}\n", tag="limit:40000-map-keys", run=True)
     add(src="x := 1\n" * 20000, tag="limit:20000-redeclare", run=False)
     add(src="a := [" + ", ".join("%d" % i for i in range(70000)) + "]\n", tag="limit:70000-elements", run=True)
+    # ---- (6b) list arities: every construct with a list slot, with 0..4 items, trailing/leading/double separators and a
+    # variadic marker in every position (a parser that handles "one or two" items must say something about three)
+    def lists(items, sep=", "):
+        out = []
+        for n in range(0, 5):
+            base = items[:n]
+            out.append(sep.join(base))
+            if n:
+                out += [sep.join(base) + sep.strip(), sep.strip() + sep.join(base), (sep + sep.strip() + " ").join(base)]
+                for k in range(n):
+                    out.append(sep.join(base[:k] + ["..." + base[k]] + base[k + 1:]))
+                    out.append(sep.join(base[:k] + [base[k] + "..."] + base[k + 1:]))
+        return out
+    ids = ["a", "b", "c", "d"]
+    vals = ["1", "x", "[2]", '"s"']
+    for l in lists(ids):
+        add(src="x := [1]\nfor %s in x {}\n" % l, tag="arity:forin", run=True)
+        add(src="f := func(%s) { return 1 }\nr := f(1, 2)\n" % l, tag="arity:params", run=True)
+        add(src="%s := 1\n" % l, tag="arity:define", run=True)
+        add(src="a := 0; b := 0; c := 0; d := 0\n%s = 1\n" % l, tag="arity:assign", run=True)
+        add(src="export {%s}\n" % l, tag="arity:export-map", asmod=True, run=True)
+    for l in lists(vals):
+        add(src="x := 0\nf := func(...r) { return r }\nr := f(%s)\n" % l, tag="arity:args", run=True)
+        add(src="x := 0\nr := [%s]\n" % l, tag="arity:array", run=True)
+        add(src="x := 0\na := 1, %s\n" % l, tag="arity:rhs", run=True)
+        add(src="x := [1, 2, 3]\nr := x[%s]\n" % l.replace(", ", ":"), tag="arity:slice", run=True)
+        add(src="x := [1, 2, 3]\nr := x[%s]\n" % l, tag="arity:index", run=True)
+        add(src="x := 0\nr := {%s}\n" % ", ".join("k%d: %s" % (i, v) for i, v in enumerate(l.split(", ")) if v), tag="arity:map", run=True)
+        add(src="x := 0\nreturn %s\n" % l, tag="arity:return", asmod=True, run=True)
+        add(src="x := 0\nr := x ? %s\n" % l.replace(", ", " : "), tag="arity:ternary", run=True)
+        add(src="x := 0\nif %s { x = 1 }\nfor %s { break }\n" % (l.replace(", ", "; "), l.replace(", ", "; ")), tag="arity:if-for-clauses", run=True)
     # ---- (7) embedder-supplied importables returning every kind of value
     for kind in ("map", "array", "int", "immutable-map-noname", "undefined", "bytes-src", "error", "string"):
         add(src="x := import(\"weird\")\ny := import(\"weird\")\nz := [x, y]\n", tag="importable:" + kind, weird=kind, imports=True, run=True)
